@@ -153,7 +153,7 @@ def sl_run(spec):
             warnings.simplefilter('ignore')
             try:
                 sl = SuperLearner(cands, ['c%d' % i for i in range(len(cands))], folds=spec['k'],
-                                  loss_function=spec['loss'], discrete=spec['discrete'])
+                                  loss_function=spec.get('loss_spelling', spec['loss']), discrete=spec['discrete'])
                 TRUTH[0] = np.asarray(y, dtype=float)
                 del YBAD[:]
                 carrier = ['ndarray', 'series', 'series-permuted-index', 'list'][spec['dseed'] % 4]
@@ -231,7 +231,9 @@ def gen_sl_specs(ctx):
             pr = (loss == 'nloglik') and rng.random() < 0.5
             cands.append((round(rng.uniform(-0.1, 0.1), 3), round(rng.uniform(-0.3, 0.3), 3), pr))
         specs.append({'n': n, 'k': k, 'loss': loss, 'discrete': rng.random() < 0.4, 'y': ykind, 'cands': cands,
-                      'dseed': rng.randint(0, 2 ** 31 - 1)})
+                      'dseed': rng.randint(0, 2 ** 31 - 1),
+                      # the argument is documented as "L2, NLogLik" and compared case-insensitively
+                      'loss_spelling': rng.choice(['L2', 'l2'] if loss == 'L2' else ['nloglik', 'NLogLik', 'NLOGLIK'])})
     for i in range(3 if ctx.quick else 12):      # degenerate target
         specs.append({'n': rng.randint(12, 20), 'k': rng.randint(2, 5), 'loss': 'L2', 'discrete': bool(i % 2), 'y': 'zero',
                       'cands': [(0.0, 0.1, False), (0.05, -0.1, False)][:1 + i % 2], 'dseed': rng.randint(0, 2 ** 31 - 1)})
@@ -252,7 +254,7 @@ def check_sl(ctx, specs, fails):
         n, k, m = spec['n'], spec['k'], len(spec['cands'])
         ctx.count('sl:folds=%s' % ('n' if k == n else k))
         ctx.count('sl:candidates=%d' % m)
-        ctx.count('sl:loss=' + spec['loss'])
+        ctx.count('sl:loss=' + spec.get('loss_spelling', spec['loss']))
         ctx.count('sl:discrete=%s' % spec['discrete'])
         ctx.count('sl:y=' + spec['y'])
         ctx.count('sl:n mod folds=%d' % (n % k))
